@@ -166,7 +166,7 @@ class SoCCore(LiteXSoC):
                 endianness = "little", # FIXME: Depends on CPU.
                 data_width = bus_data_width
             )
-            integrated_rom_size = 4*len(integrated_rom_init)
+            integrated_rom_size = (bus_data_width//8)*len(integrated_rom_init)
 
         # Disable ROM when no CPU/hard-CPU.
         if cpu_type in [None, "zynq7000", "zynqmp", "eos_s3"]:
